@@ -52,6 +52,14 @@ def run_spec(ctx, rep, spec, model, only=None):
                             rep.agree(); rep.count("coords-model-accepts")
                         elif mv is not None:
                             rep.tie(f"box-coordinate validation: the Lean model says {mv} for a well-formed plotfile the validator accepts", case)
+                    if opts.get("binary_data") and not nofail and not cli:
+                        dv = tastelib.data_model_verdict(path, leanio, limit)
+                        if dv == "good":
+                            rep.agree(); rep.count("binary-data-model-accepts")
+                        elif dv is not None:
+                            rep.tie(f"binary-data validation: the Lean model says {dv} for a well-formed plotfile the validator accepts", case)
+    if model and only is None:
+        row_edits(ctx, rep, spec, tree)
     wf_idx = []
     if model and only is None and len(set(spec["fields"])) == len(spec["fields"]):
         # certificate: is this plotfile, as bytes on disk, well formed in the sense of the completeness theorem
@@ -72,6 +80,66 @@ def run_spec(ctx, rep, spec, model, only=None):
                 rep.agree()
             else:
                 rep.tie("validator accepts a well-formed plotfile the model rejects", case, rs[i])
+
+
+def edit_row(text, nf, which, box, field, kind):
+    """the level header `text` with one entry of its minimum (which=0) or maximum (1) table replaced: 'near' = within numpy's
+    isclose band of the recorded value, 'far' = well outside it, 'nan' = not a number; None when the table is not where the
+    writers put it"""
+    L = text.decode("latin1").split("\n")
+    try:
+        N = int(L[4].split()[0].lstrip("("))
+        row = (9 + 2 * N if which == 0 else 11 + 3 * N) + box
+        parts = L[row].split(",")
+        if len(parts) != nf + 1:
+            return None
+        v = float(parts[field])
+    except (ValueError, IndexError):
+        return None
+    if kind == "nan":
+        new = "nan"
+    elif v != v or v in (float("inf"), float("-inf")):
+        return None
+    elif kind == "near":
+        new = repr(v * (1 + 2e-6) + 2e-9)
+    else:
+        new = repr(v * 1.5 + 1.0 if abs(v) < 1e300 else v / 2)
+    parts[field] = new
+    L[row] = ",".join(parts)
+    return "\n".join(L).encode("latin1")
+
+
+def row_edits(ctx, rep, spec, tree):
+    """correspondence of the binary-data model on both verdicts: one entry of a min / max table replaced by a value near it
+    (still accepted), far from it or NaN (rejected); the real validator with binary_data=True against `TasteData.levelOK`"""
+    nf = len(spec["fields"])
+    nlev = len(spec["levels"])
+    for k, kind in enumerate(("near", "far", "nan")):
+        lv = ctx.rng.randrange(nlev)
+        box = ctx.rng.randrange(len(spec["levels"][lv]))
+        field = ctx.rng.randrange(nf)
+        which = ctx.rng.randrange(2)
+        rel = f"Level_{lv}/Cell_H"
+        if rel not in tree:
+            return
+        new = edit_row(tree[rel], nf, which, box, field, kind)
+        if new is None or new == tree[rel]:
+            continue
+        t2 = dict(tree); t2[rel] = new
+        p2 = ctx.newdir("c03row_")
+        tastelib.write_tree(t2, p2)
+        nofail = bool(k % 2)
+        good, raised = tastelib.real_taste(p2, nofail=nofail, binary_data=True)
+        mv = tastelib.data_model_verdict(p2, leanio)
+        case = {"spec": spec, "row_edit": [lv, which, box, field, kind]}
+        rep.count("row-edit:" + kind)
+        if mv is None:
+            continue
+        real = "good" if (good and raised is None) else ("bad" if raised in (None, "TastesBadError") else "crash")
+        if real == mv:
+            rep.agree(); rep.count("row-edit-verdict:" + mv)
+        else:
+            rep.tie(f"binary-data validation of a level header with a {kind} entry: validator says {real} (raised={raised}), the Lean model {mv}", case)
 
 
 def directories_session(ctx, rep, seed):
